@@ -360,3 +360,53 @@ Proof.
   apply wrap_all_length in Ew.
   rewrite np_insert_refines by congruence. rewrite orig_map_refines, ins_map_refines. reflexivity.
 Qed.
+
+(* ---- the declarative maps point at the right elements: inserted point j is found at its mapped position ---- *)
+Lemma emitted_nth {A} a : forall (w : list nat) (pts : list A) j x,
+  nth_error w j = Some a -> nth_error pts j = Some x ->
+  nth_error (emitted a w pts) (count_nat (fun i => i =? a)%nat (firstn j w)) = Some x.
+Proof.
+  unfold emitted, count_nat. induction w as [|c r IH]; intros pts j x Hw Hp; [destruct j; discriminate|].
+  destruct pts as [|y ys]; [destruct j; discriminate|]. destruct j as [|j]; cbn [nth_error] in Hw, Hp.
+  - injection Hw as ->. injection Hp as ->. cbn [firstn filter length zip fst]. rewrite Nat.eqb_refl. reflexivity.
+  - cbn [firstn filter zip fst]. destruct (c =? a)%nat; cbn [length map snd nth_error]; apply IH; assumption.
+Qed.
+Lemma count_range_split (w : list nat) p a : p < a ->
+  count_nat (fun i => (p <=? i) && (i <? a))%nat w =
+  (count_nat (fun i => i =? p)%nat w + count_nat (fun i => (S p <=? i) && (i <? a))%nat w)%nat.
+Proof.
+  intros H. unfold count_nat. induction w as [|c r IH]; [reflexivity|]. cbn [filter].
+  destruct (Nat.leb_spec p c), (Nat.ltb_spec c a), (Nat.eqb_spec c p), (Nat.leb_spec (S p) c); cbn [andb length]; lia.
+Qed.
+Lemma count_range_empty (w : list nat) p : count_nat (fun i => (p <=? i) && (i <? p))%nat w = 0%nat.
+Proof.
+  unfold count_nat. rewrite filter_none; [reflexivity|]. intros z _.
+  destruct (Nat.leb_spec p z), (Nat.ltb_spec z p); cbn [andb]; try reflexivity; lia.
+Qed.
+Lemma ins_from_inserted {A} (w : list nat) (pts : list A) a t x : length w = length pts ->
+  nth_error (emitted a w pts) t = Some x ->
+  forall v' p, p <= a -> a <= p + length v' ->
+  nth_error (ins_from p v' w pts) ((a - p) + count_nat (fun i => (p <=? i) && (i <? a))%nat w + t) = Some x.
+Proof.
+  intros Hl Ht. induction v' as [|y r IH]; intros p Hpa Hap; cbn [length] in Hap; cbn [ins_from].
+  - assert (a = p) by lia. subst a. rewrite Nat.sub_diag, count_range_empty. exact Ht.
+  - destruct (Nat.eq_dec a p) as [->|Hne].
+    + rewrite Nat.sub_diag, count_range_empty. cbn [Nat.add].
+      rewrite nth_error_app1; [exact Ht|]. apply nth_error_Some. congruence.
+    + rewrite count_range_split by lia. rewrite <- (emitted_length' p w pts Hl).
+      rewrite nth_error_app2 by lia.
+      replace (a - p + (length (emitted p w pts) + count_nat (fun i => (S p <=? i) && (i <? a))%nat w) + t - length (emitted p w pts))%nat
+        with (S ((a - S p) + count_nat (fun i => (S p <=? i) && (i <? a))%nat w + t)) by lia.
+      cbn [nth_error]. apply IH; lia.
+Qed.
+Theorem spec_ins_map_points {A} (v : list A) (w : list nat) (pts : list A) j a x :
+  length w = length pts -> nth_error w j = Some a -> nth_error pts j = Some x -> a <= length v ->
+  nth_error (spec_ins_map w) j = Some (spec_ins_pos w j a) /\
+  nth_error (spec_insert v w pts) (spec_ins_pos w j a) = Some x.
+Proof.
+  intros Hl Hw Hp Ha. split.
+  - unfold spec_ins_map. rewrite nth_spec_ins_map_from, Hw. reflexivity.
+  - unfold spec_insert, spec_ins_pos.
+    pose proof (ins_from_inserted w pts a _ x Hl (emitted_nth a w pts j x Hw Hp) v 0 (Nat.le_0_l a) Ha) as H.
+    rewrite Nat.sub_0_r in H. exact H.
+Qed.
